@@ -565,25 +565,25 @@ theorem tagOk0_of_root {top : Bool} {t : Int} (h : rootTagOk top t = true) : tag
 mutual
   /-- the domain of the round-trip theorems, as an explicit decidable predicate: tags in `(0, 2^24)` (the
       root's may be 0 when `top`); Go ranges of the scalar types; dates the readers' year test accepts
-      (`R.inYears`: local years 0..9999, which contain the years 1..9999 of the property); the annotations
-      of enumeration and bit-mask nodes are what the reader is told (`H`) for their tag; an Integer node's
-      tag is not read as a mask. (Text strings are arbitrary byte sequences at this layer: which of them
-      survive the escaper / tokeniser pair of the standard library is outside the model.) -/
+      (`R.inYears`: years 0..9999, which contain the years 1..9999 of the property); the annotations
+      of enumeration and bit-mask nodes are what the reader is told (`H`) AT THEIR POSITION; an Integer
+      node is not read as a mask at its position. (Text strings are arbitrary byte sequences at this layer:
+      which of them survive the escaper / tokeniser pair of the standard library is outside the model.) -/
   def XItem.representableG (top : Bool) (R : Rfc3339) (H : Hints) : XItem → Bool
-    | .struct t cs => rootTagOk top t && XItem.representableList R H cs
-    | .int t v => rootTagOk top t && int32Ok v && decide ((H t).mask = none)
-    | .mask t m v => rootTagOk top t && int32Ok v && decide ((H t).mask = some m)
+    | .struct t cs => rootTagOk top t && XItem.representableList R H.child cs
+    | .int t v => rootTagOk top t && int32Ok v && decide ((H [] t).mask = none)
+    | .mask t m v => rootTagOk top t && int32Ok v && decide ((H [] t).mask = some m)
     | .long t v => rootTagOk top t && int64Ok v
     | .big t _ => rootTagOk top t
-    | .enum t e v => rootTagOk top t && decide (v < 4294967296) && decide ((H t).enumTag = e)
+    | .enum t e v => rootTagOk top t && decide (v < 4294967296) && decide ((H [] t).enumTag = e)
     | .bool t _ => rootTagOk top t
     | .text t _ => rootTagOk top t
     | .bytes t _ => rootTagOk top t
     | .date t v => rootTagOk top t && R.inYears v
     | .interval t v => rootTagOk top t && decide (v < 4294967296)
-  def XItem.representableList (R : Rfc3339) (H : Hints) : List XItem → Bool
+  def XItem.representableList (R : Rfc3339) (Hs : Nat → Hints) : List XItem → Bool
     | [] => true
-    | x :: xs => x.representableG false R H && XItem.representableList R H xs
+    | x :: xs => x.representableG false R (Hs 0) && XItem.representableList R (hintsTail Hs) xs
 end
 
 /-- every tag, the root's included, is a KMIP tag. -/
@@ -777,11 +777,11 @@ theorem tag_after_stop (T : Tables) (rest : List Tok) : XCur.tag T (after (.stop
   cases T.oldTags <;> simp [after, XCur.tag, Tables.tagOfText, XCur.rawTag, tagFromText, tagFromTextOld]
 
 section
-variable {T : Tables} (hT : T.WF) {R : Rfc3339} (hR : R.Lawful) {H : Hints} {top : Bool}
+variable {T : Tables} (hT : T.WF) {R : Rfc3339} (hR : R.Lawful) {top : Bool}
 include hT hR
 
 /-- the generic decoder on a scalar element written by the XML writer. -/
-theorem xDecodeValue_scalar (t : XItem) (hns : t.ty ≠ 1) (f : Nat) (rest : List Tok)
+theorem xDecodeValue_scalar {H : Hints} (t : XItem) (hns : t.ty ≠ 1) (f : Nat) (rest : List Tok)
     (hr : t.representableG top R H = true) :
     xDecodeValue T R H (f + 1) ⟨some (xmlStart T t.ty t.tag (some (xmlValue T R t))), .stop :: rest, false⟩ t.tag =
       .ok (t, after rest) := by
@@ -859,10 +859,10 @@ theorem xDecodeValue_scalar (t : XItem) (hns : t.ty ≠ 1) (f : Nat) (rest : Lis
 mutual
   /-- the generic decoder reads back every representable tree the XML writer wrote, whatever follows it
       in the token stream, with any fuel `≥ size`. -/
-  theorem xDecodeValue_write : ∀ (t : XItem) (top : Bool) (fuel : Nat) (rest : List Tok), t.size ≤ fuel →
+  theorem xDecodeValue_write : ∀ (t : XItem) (H : Hints) (top : Bool) (fuel : Nat) (rest : List Tok), t.size ≤ fuel →
       t.representableG top R H = true →
       xDecodeValue T R H fuel (after ((xmlWrite T R t).toks ++ rest)) t.tag = .ok (t, after rest)
-    | .struct tag cs, top, fuel, rest, hf, hr => by
+    | .struct tag cs, H, top, fuel, rest, hf, hr => by
       obtain ⟨f, rfl⟩ : ∃ f, fuel = f + 1 := ⟨fuel - 1, by simp [XItem.size] at hf; omega⟩
       simp only [XItem.representableG, Bool.and_eq_true] at hr
       have htag := tagOk0_of_root hr.1
@@ -877,7 +877,7 @@ mutual
         next_noskip (Or.inl rfl) (Or.inl (by simp))
       rw [hn1]
       simp only [Res.ok_bind]
-      rw [xDecodeFields_write cs f rest hsz hr.2]
+      rw [xDecodeFields_write cs H.child f rest hsz hr.2]
       simp only [Res.ok_bind]
       rw [drain_none]
       simp only [Res.ok_bind]
@@ -885,62 +885,62 @@ mutual
         next_noskip (Or.inr ⟨ty_xmlStart T hT (by decide) (by decide) htag none rest true, rfl⟩) (Or.inr rfl)
       rw [hn2]
       rfl
-    | .int tag v, top, fuel, rest, hf, hr => by
+    | .int tag v, H, top, fuel, rest, hf, hr => by
       obtain ⟨f, rfl⟩ : ∃ f, fuel = f + 1 := ⟨fuel - 1, by simp [XItem.size] at hf; omega⟩
       simp only [xmlWrite, toks_xmlScalar]
       exact xDecodeValue_scalar hT hR (.int tag v) (by simp [XItem.ty]) f rest hr
-    | .mask tag m v, top, fuel, rest, hf, hr => by
+    | .mask tag m v, H, top, fuel, rest, hf, hr => by
       obtain ⟨f, rfl⟩ : ∃ f, fuel = f + 1 := ⟨fuel - 1, by simp [XItem.size] at hf; omega⟩
       simp only [xmlWrite, toks_xmlScalar]
       exact xDecodeValue_scalar hT hR (.mask tag m v) (by simp [XItem.ty]) f rest hr
-    | .long tag v, top, fuel, rest, hf, hr => by
+    | .long tag v, H, top, fuel, rest, hf, hr => by
       obtain ⟨f, rfl⟩ : ∃ f, fuel = f + 1 := ⟨fuel - 1, by simp [XItem.size] at hf; omega⟩
       simp only [xmlWrite, toks_xmlScalar]
       exact xDecodeValue_scalar hT hR (.long tag v) (by simp [XItem.ty]) f rest hr
-    | .big tag v, top, fuel, rest, hf, hr => by
+    | .big tag v, H, top, fuel, rest, hf, hr => by
       obtain ⟨f, rfl⟩ : ∃ f, fuel = f + 1 := ⟨fuel - 1, by simp [XItem.size] at hf; omega⟩
       simp only [xmlWrite, toks_xmlScalar]
       exact xDecodeValue_scalar hT hR (.big tag v) (by simp [XItem.ty]) f rest hr
-    | .enum tag e v, top, fuel, rest, hf, hr => by
+    | .enum tag e v, H, top, fuel, rest, hf, hr => by
       obtain ⟨f, rfl⟩ : ∃ f, fuel = f + 1 := ⟨fuel - 1, by simp [XItem.size] at hf; omega⟩
       simp only [xmlWrite, toks_xmlScalar]
       exact xDecodeValue_scalar hT hR (.enum tag e v) (by simp [XItem.ty]) f rest hr
-    | .bool tag b, top, fuel, rest, hf, hr => by
+    | .bool tag b, H, top, fuel, rest, hf, hr => by
       obtain ⟨f, rfl⟩ : ∃ f, fuel = f + 1 := ⟨fuel - 1, by simp [XItem.size] at hf; omega⟩
       simp only [xmlWrite, toks_xmlScalar]
       exact xDecodeValue_scalar hT hR (.bool tag b) (by simp [XItem.ty]) f rest hr
-    | .text tag s, top, fuel, rest, hf, hr => by
+    | .text tag s, H, top, fuel, rest, hf, hr => by
       obtain ⟨f, rfl⟩ : ∃ f, fuel = f + 1 := ⟨fuel - 1, by simp [XItem.size] at hf; omega⟩
       simp only [xmlWrite, toks_xmlScalar]
       exact xDecodeValue_scalar hT hR (.text tag s) (by simp [XItem.ty]) f rest hr
-    | .bytes tag s, top, fuel, rest, hf, hr => by
+    | .bytes tag s, H, top, fuel, rest, hf, hr => by
       obtain ⟨f, rfl⟩ : ∃ f, fuel = f + 1 := ⟨fuel - 1, by simp [XItem.size] at hf; omega⟩
       simp only [xmlWrite, toks_xmlScalar]
       exact xDecodeValue_scalar hT hR (.bytes tag s) (by simp [XItem.ty]) f rest hr
-    | .date tag v, top, fuel, rest, hf, hr => by
+    | .date tag v, H, top, fuel, rest, hf, hr => by
       obtain ⟨f, rfl⟩ : ∃ f, fuel = f + 1 := ⟨fuel - 1, by simp [XItem.size] at hf; omega⟩
       simp only [xmlWrite, toks_xmlScalar]
       exact xDecodeValue_scalar hT hR (.date tag v) (by simp [XItem.ty]) f rest hr
-    | .interval tag v, top, fuel, rest, hf, hr => by
+    | .interval tag v, H, top, fuel, rest, hf, hr => by
       obtain ⟨f, rfl⟩ : ∃ f, fuel = f + 1 := ⟨fuel - 1, by simp [XItem.size] at hf; omega⟩
       simp only [xmlWrite, toks_xmlScalar]
       exact xDecodeValue_scalar hT hR (.interval tag v) (by simp [XItem.ty]) f rest hr
   /-- … and the field loop reads back every list of children up to the end tag of their parent. -/
-  theorem xDecodeFields_write : ∀ (cs : List XItem) (fuel : Nat) (rest : List Tok),
-      XItem.sizeList cs ≤ fuel → XItem.representableList R H cs = true →
-      xDecodeFields T R H fuel (after (XElem.toksList (xmlWriteList T R cs) ++ .stop :: rest)) =
+  theorem xDecodeFields_write : ∀ (cs : List XItem) (Hs : Nat → Hints) (fuel : Nat) (rest : List Tok),
+      XItem.sizeList cs ≤ fuel → XItem.representableList R Hs cs = true →
+      xDecodeFields T R Hs fuel (after (XElem.toksList (xmlWriteList T R cs) ++ .stop :: rest)) =
         .ok (cs, ⟨none, rest, false⟩)
-    | [], fuel, rest, hf, _ => by
+    | [], Hs, fuel, rest, hf, _ => by
       obtain ⟨f, rfl⟩ : ∃ f, fuel = f + 1 := ⟨fuel - 1, by simp [XItem.sizeList] at hf; omega⟩
       simp only [xmlWriteList, XElem.toksList, List.nil_append]
       rw [xDecodeFields, tag_after_stop T]
       simp [after]
-    | c :: cs, fuel, rest, hf, hr => by
+    | c :: cs, Hs, fuel, rest, hf, hr => by
       obtain ⟨f, rfl⟩ : ∃ f, fuel = f + 1 := ⟨fuel - 1, by simp [XItem.sizeList] at hf; omega⟩
       simp only [XItem.representableList, Bool.and_eq_true] at hr
       have h1 : c.size ≤ f := by simp [XItem.sizeList] at hf; omega
       have h2 : XItem.sizeList cs ≤ f := by simp [XItem.sizeList] at hf; omega
-      have hv := xDecodeValue_write c false f (XElem.toksList (xmlWriteList T R cs) ++ .stop :: rest) h1 hr.1
+      have hv := xDecodeValue_write c (Hs 0) false f (XElem.toksList (xmlWriteList T R cs) ++ .stop :: rest) h1 hr.1
       have htag := XItem.tagPos_of_rep hr.1
       -- the cursor is on the start element of `c`: its tag is `c.tag ≠ 0`
       have hcur : XCur.tag T (after ((xmlWrite T R c).toks ++
@@ -954,12 +954,12 @@ mutual
       simp only [hne, if_false]
       rw [hv]
       simp only [Res.ok_bind]
-      rw [xDecodeFields_write cs f rest h2 hr.2]
+      rw [xDecodeFields_write cs (hintsTail Hs) f rest h2 hr.2]
       rfl
 end
 
 omit hR in
-theorem tag_after_write (t : XItem) (hr : t.representableG top R H = true) (rest : List Tok) :
+theorem tag_after_write {H : Hints} (t : XItem) (hr : t.representableG top R H = true) (rest : List Tok) :
     XCur.tag T (after ((xmlWrite T R t).toks ++ rest)) = t.tag := by
   cases t <;>
     simp only [xmlWrite, toks_xmlScalar, XElem.toks, after, List.cons_append, XItem.tag] <;>
@@ -995,7 +995,7 @@ theorem xmlRead_write {T : Tables} (hT : T.WF) {R : Rfc3339} (hR : R.Lawful) {H 
   rw [hn]
   simp only [Res.ok_bind]
   have ht := tag_after_write hT (R := R) t hr []
-  have hv := xDecodeValue_write hT hR t top (2 * (xmlWrite T R t).toks.length + 2) []
+  have hv := xDecodeValue_write hT hR t H top (2 * (xmlWrite T R t).toks.length + 2) []
     (by have := size_le_toks T R t; omega) hr
   rw [List.append_nil] at ht hv
   rw [ht, hv]
@@ -1070,10 +1070,10 @@ theorem scalar_jsonElem {α : Type} (T : Tables) (hT : T.WF) {ty : Nat} (hty1 : 
 /-! ## 10. JSON: trees -/
 
 section
-variable {T : Tables} (hT : T.WF) {R : Rfc3339} (hR : R.Lawful) {H : Hints} {top : Bool}
+variable {T : Tables} (hT : T.WF) {R : Rfc3339} (hR : R.Lawful) {top : Bool}
 include hT hR
 
-theorem jDecodeValue_scalar (t : XItem) (hns : t.ty ≠ 1) (f : Nat) (more : List JVal)
+theorem jDecodeValue_scalar {H : Hints} (t : XItem) (hns : t.ty ≠ 1) (f : Nat) (more : List JVal)
     (hr : t.representableG top R H = true) :
     jDecodeValue T R H (f + 1) ⟨jsonElem T t.ty t.tag (jsonValue T R t) :: more⟩ t.tag =
       .ok (t, ⟨more⟩) := by
@@ -1151,10 +1151,10 @@ theorem jDecodeValue_scalar (t : XItem) (hns : t.ty ≠ 1) (f : Nat) (more : Lis
     rfl
 
 mutual
-  theorem jDecodeValue_write : ∀ (t : XItem) (top : Bool) (fuel : Nat) (more : List JVal), t.size ≤ fuel →
+  theorem jDecodeValue_write : ∀ (t : XItem) (H : Hints) (top : Bool) (fuel : Nat) (more : List JVal), t.size ≤ fuel →
       t.representableG top R H = true →
       jDecodeValue T R H fuel ⟨jsonWrite T R t :: more⟩ t.tag = .ok (t, ⟨more⟩)
-    | .struct tag cs, top, fuel, more, hf, hr => by
+    | .struct tag cs, H, top, fuel, more, hf, hr => by
       obtain ⟨f, rfl⟩ : ∃ f, fuel = f + 1 := ⟨fuel - 1, by simp [XItem.size] at hf; omega⟩
       simp only [XItem.representableG, Bool.and_eq_true] at hr
       have htag := tagOk0_of_root hr.1
@@ -1162,50 +1162,50 @@ mutual
       simp only [jsonWrite, XItem.tag]
       rw [jDecodeValue, jty_jsonElem T (by decide) (by decide)]
       simp only [jtag_jsonElem T hT 1 htag, ne_eq, not_true_eq_false, if_false, get_sValue]
-      rw [jDecodeFields_write cs f hsz hr.2]
+      rw [jDecodeFields_write cs H.child f hsz hr.2]
       rfl
-    | .int tag v, top, fuel, more, hf, hr => by
+    | .int tag v, H, top, fuel, more, hf, hr => by
       obtain ⟨f, rfl⟩ : ∃ f, fuel = f + 1 := ⟨fuel - 1, by simp [XItem.size] at hf; omega⟩
       exact jDecodeValue_scalar hT hR (.int tag v) (by simp [XItem.ty]) f more hr
-    | .mask tag m v, top, fuel, more, hf, hr => by
+    | .mask tag m v, H, top, fuel, more, hf, hr => by
       obtain ⟨f, rfl⟩ : ∃ f, fuel = f + 1 := ⟨fuel - 1, by simp [XItem.size] at hf; omega⟩
       exact jDecodeValue_scalar hT hR (.mask tag m v) (by simp [XItem.ty]) f more hr
-    | .long tag v, top, fuel, more, hf, hr => by
+    | .long tag v, H, top, fuel, more, hf, hr => by
       obtain ⟨f, rfl⟩ : ∃ f, fuel = f + 1 := ⟨fuel - 1, by simp [XItem.size] at hf; omega⟩
       exact jDecodeValue_scalar hT hR (.long tag v) (by simp [XItem.ty]) f more hr
-    | .big tag v, top, fuel, more, hf, hr => by
+    | .big tag v, H, top, fuel, more, hf, hr => by
       obtain ⟨f, rfl⟩ : ∃ f, fuel = f + 1 := ⟨fuel - 1, by simp [XItem.size] at hf; omega⟩
       exact jDecodeValue_scalar hT hR (.big tag v) (by simp [XItem.ty]) f more hr
-    | .enum tag e v, top, fuel, more, hf, hr => by
+    | .enum tag e v, H, top, fuel, more, hf, hr => by
       obtain ⟨f, rfl⟩ : ∃ f, fuel = f + 1 := ⟨fuel - 1, by simp [XItem.size] at hf; omega⟩
       exact jDecodeValue_scalar hT hR (.enum tag e v) (by simp [XItem.ty]) f more hr
-    | .bool tag b, top, fuel, more, hf, hr => by
+    | .bool tag b, H, top, fuel, more, hf, hr => by
       obtain ⟨f, rfl⟩ : ∃ f, fuel = f + 1 := ⟨fuel - 1, by simp [XItem.size] at hf; omega⟩
       exact jDecodeValue_scalar hT hR (.bool tag b) (by simp [XItem.ty]) f more hr
-    | .text tag s, top, fuel, more, hf, hr => by
+    | .text tag s, H, top, fuel, more, hf, hr => by
       obtain ⟨f, rfl⟩ : ∃ f, fuel = f + 1 := ⟨fuel - 1, by simp [XItem.size] at hf; omega⟩
       exact jDecodeValue_scalar hT hR (.text tag s) (by simp [XItem.ty]) f more hr
-    | .bytes tag s, top, fuel, more, hf, hr => by
+    | .bytes tag s, H, top, fuel, more, hf, hr => by
       obtain ⟨f, rfl⟩ : ∃ f, fuel = f + 1 := ⟨fuel - 1, by simp [XItem.size] at hf; omega⟩
       exact jDecodeValue_scalar hT hR (.bytes tag s) (by simp [XItem.ty]) f more hr
-    | .date tag v, top, fuel, more, hf, hr => by
+    | .date tag v, H, top, fuel, more, hf, hr => by
       obtain ⟨f, rfl⟩ : ∃ f, fuel = f + 1 := ⟨fuel - 1, by simp [XItem.size] at hf; omega⟩
       exact jDecodeValue_scalar hT hR (.date tag v) (by simp [XItem.ty]) f more hr
-    | .interval tag v, top, fuel, more, hf, hr => by
+    | .interval tag v, H, top, fuel, more, hf, hr => by
       obtain ⟨f, rfl⟩ : ∃ f, fuel = f + 1 := ⟨fuel - 1, by simp [XItem.size] at hf; omega⟩
       exact jDecodeValue_scalar hT hR (.interval tag v) (by simp [XItem.ty]) f more hr
-  theorem jDecodeFields_write : ∀ (cs : List XItem) (fuel : Nat), XItem.sizeList cs ≤ fuel →
-      XItem.representableList R H cs = true →
-      jDecodeFields T R H fuel ⟨jsonWriteList T R cs⟩ = .ok cs
-    | [], fuel, hf, _ => by
+  theorem jDecodeFields_write : ∀ (cs : List XItem) (Hs : Nat → Hints) (fuel : Nat), XItem.sizeList cs ≤ fuel →
+      XItem.representableList R Hs cs = true →
+      jDecodeFields T R Hs fuel ⟨jsonWriteList T R cs⟩ = .ok cs
+    | [], Hs, fuel, hf, _ => by
       obtain ⟨f, rfl⟩ : ∃ f, fuel = f + 1 := ⟨fuel - 1, by simp [XItem.sizeList] at hf; omega⟩
       simp [jsonWriteList, jDecodeFields, JCur.tag, JCur.get]
-    | c :: cs, fuel, hf, hr => by
+    | c :: cs, Hs, fuel, hf, hr => by
       obtain ⟨f, rfl⟩ : ∃ f, fuel = f + 1 := ⟨fuel - 1, by simp [XItem.sizeList] at hf; omega⟩
       simp only [XItem.representableList, Bool.and_eq_true] at hr
       have h1 : c.size ≤ f := by simp [XItem.sizeList] at hf; omega
       have h2 : XItem.sizeList cs ≤ f := by simp [XItem.sizeList] at hf; omega
-      have hv := jDecodeValue_write c false f (jsonWriteList T R cs) h1 hr.1
+      have hv := jDecodeValue_write c (Hs 0) false f (jsonWriteList T R cs) h1 hr.1
       have htag := XItem.tagPos_of_rep hr.1
       have hcur : JCur.tag T ⟨jsonWrite T R c :: jsonWriteList T R cs⟩ = c.tag := by
         cases c <;> simp only [jsonWrite, XItem.tag] <;>
@@ -1216,12 +1216,12 @@ mutual
       simp only [hne, if_false]
       rw [hv]
       simp only [Res.ok_bind]
-      rw [jDecodeFields_write cs f h2 hr.2]
+      rw [jDecodeFields_write cs (hintsTail Hs) f h2 hr.2]
       rfl
 end
 
 omit hR in
-theorem jtag_write (t : XItem) (hr : t.representableG top R H = true) (more : List JVal) :
+theorem jtag_write {H : Hints} (t : XItem) (hr : t.representableG top R H = true) (more : List JVal) :
     JCur.tag T ⟨jsonWrite T R t :: more⟩ = t.tag := by
   cases t <;> simp only [jsonWrite, XItem.tag] <;>
     exact jtag_jsonElem T hT _ (XItem.tagOk_of_rep hr) _ _
@@ -1280,7 +1280,7 @@ theorem jsonRead_write {T : Tables} (hT : T.WF) {R : Rfc3339} (hR : R.Lawful) {H
     (hr : t.representableG top R H = true) : jsonRead T R H (jsonWrite T R t) = .ok t := by
   unfold jsonRead
   simp only [jtag_write hT (R := R) t hr []]
-  rw [jDecodeValue_write hT hR t top _ [] (by have := size_le_jsize T R t; omega) hr]
+  rw [jDecodeValue_write hT hR t H top _ [] (by have := size_le_jsize T R t; omega) hr]
   rfl
 
 
@@ -1294,18 +1294,19 @@ structure Tables.Bounded (T : Tables) : Prop where
   maskVals : ∀ m ∈ T.masks, ∀ p ∈ m.2.2, p.2 < 2 ^ 32
 
 mutual
-  /-- every value is in the range of its Go type and every annotation is the reader's hint. -/
+  /-- every value is in the range of its Go type and every annotation is the reader's hint at that
+      position. -/
   def XItem.normal (H : Hints) : XItem → Bool
-    | .struct _ cs => XItem.normalList H cs
-    | .int t v => int32Ok v && decide ((H t).mask = none)
-    | .mask t m v => int32Ok v && decide ((H t).mask = some m)
+    | .struct _ cs => XItem.normalList H.child cs
+    | .int t v => int32Ok v && decide ((H [] t).mask = none)
+    | .mask t m v => int32Ok v && decide ((H [] t).mask = some m)
     | .long _ v => int64Ok v
-    | .enum t e v => decide (v < 4294967296) && decide ((H t).enumTag = e)
+    | .enum t e v => decide (v < 4294967296) && decide ((H [] t).enumTag = e)
     | .interval _ v => decide (v < 4294967296)
     | _ => true
-  def XItem.normalList (H : Hints) : List XItem → Bool
+  def XItem.normalList (Hs : Nat → Hints) : List XItem → Bool
     | [] => true
-    | x :: xs => x.normal H && XItem.normalList H xs
+    | x :: xs => x.normal (Hs 0) && XItem.normalList (hintsTail Hs) xs
 end
 
 mutual
@@ -1320,56 +1321,56 @@ mutual
 end
 
 mutual
-  theorem rep_of_normal (R : Rfc3339) (H : Hints) (top : Bool) : ∀ t : XItem, t.normal H = true →
+  theorem rep_of_normal (R : Rfc3339) (top : Bool) : ∀ (t : XItem) (H : Hints), t.normal H = true →
       t.inDomainG top R = true → t.representableG top R H = true
-    | .struct t cs, hn, hd => by
+    | .struct t cs, H, hn, hd => by
       simp only [XItem.normal] at hn
       simp only [XItem.inDomainG, Bool.and_eq_true] at hd
       simp only [XItem.representableG, Bool.and_eq_true]
-      exact ⟨hd.1, repList_of_normal R H cs hn hd.2⟩
-    | .int t v, hn, hd => by
+      exact ⟨hd.1, repList_of_normal R cs H.child hn hd.2⟩
+    | .int t v, H, hn, hd => by
       simp only [XItem.normal, Bool.and_eq_true] at hn
       simp only [XItem.inDomainG, XItem.tag] at hd
       simp only [XItem.representableG, Bool.and_eq_true]; exact ⟨⟨hd, hn.1⟩, hn.2⟩
-    | .mask t m v, hn, hd => by
+    | .mask t m v, H, hn, hd => by
       simp only [XItem.normal, Bool.and_eq_true] at hn
       simp only [XItem.inDomainG, XItem.tag] at hd
       simp only [XItem.representableG, Bool.and_eq_true]; exact ⟨⟨hd, hn.1⟩, hn.2⟩
-    | .long t v, hn, hd => by
+    | .long t v, H, hn, hd => by
       simp only [XItem.normal] at hn
       simp only [XItem.inDomainG, XItem.tag] at hd
       simp only [XItem.representableG, Bool.and_eq_true]; exact ⟨hd, hn⟩
-    | .big t v, _, hd => by
+    | .big t v, H, _, hd => by
       simp only [XItem.inDomainG, XItem.tag] at hd
       simp only [XItem.representableG]; exact hd
-    | .enum t e v, hn, hd => by
+    | .enum t e v, H, hn, hd => by
       simp only [XItem.normal, Bool.and_eq_true] at hn
       simp only [XItem.inDomainG, XItem.tag] at hd
       simp only [XItem.representableG, Bool.and_eq_true]; exact ⟨⟨hd, hn.1⟩, hn.2⟩
-    | .bool t b, _, hd => by
+    | .bool t b, H, _, hd => by
       simp only [XItem.inDomainG, XItem.tag] at hd
       simp only [XItem.representableG]; exact hd
-    | .text t s, _, hd => by
+    | .text t s, H, _, hd => by
       simp only [XItem.inDomainG, XItem.tag] at hd
       simp only [XItem.representableG]; exact hd
-    | .bytes t s, _, hd => by
+    | .bytes t s, H, _, hd => by
       simp only [XItem.inDomainG, XItem.tag] at hd
       simp only [XItem.representableG]; exact hd
-    | .date t v, _, hd => by
+    | .date t v, H, _, hd => by
       simp only [XItem.inDomainG] at hd
       simp only [XItem.representableG]; exact hd
-    | .interval t v, hn, hd => by
+    | .interval t v, H, hn, hd => by
       simp only [XItem.normal] at hn
       simp only [XItem.inDomainG, XItem.tag] at hd
       simp only [XItem.representableG, Bool.and_eq_true]; exact ⟨hd, hn⟩
-  theorem repList_of_normal (R : Rfc3339) (H : Hints) : ∀ cs : List XItem, XItem.normalList H cs = true →
-      XItem.inDomainList R cs = true → XItem.representableList R H cs = true
-    | [], _, _ => rfl
-    | c :: cs, hn, hd => by
+  theorem repList_of_normal (R : Rfc3339) : ∀ (cs : List XItem) (Hs : Nat → Hints), XItem.normalList Hs cs = true →
+      XItem.inDomainList R cs = true → XItem.representableList R Hs cs = true
+    | [], _, _, _ => rfl
+    | c :: cs, Hs, hn, hd => by
       simp only [XItem.normalList, Bool.and_eq_true] at hn
       simp only [XItem.inDomainList, Bool.and_eq_true] at hd
       simp only [XItem.representableList, Bool.and_eq_true]
-      exact ⟨rep_of_normal R H false c hn.1 hd.1, repList_of_normal R H cs hn.2 hd.2⟩
+      exact ⟨rep_of_normal R false c (Hs 0) hn.1 hd.1, repList_of_normal R cs (hintsTail Hs) hn.2 hd.2⟩
 end
 
 /-- a root-domain tree whose root tag is not 0 is in the strict domain. -/
@@ -1561,18 +1562,18 @@ theorem scalar_inv {α : Type} {T : Tables} {c c' : XCur} {ty : Nat} {tag : Int}
         exact ⟨_, h3.1 ▸ h1, Decidable.of_not_not htag⟩
 
 /-- whatever document the XML reader accepts, the tree it returns is normalised. -/
-theorem xDecode_normal {T : Tables} (hB : T.Bounded) {R : Rfc3339} {H : Hints} : ∀ fuel : Nat,
-    (∀ c tag t c', xDecodeValue T R H fuel c tag = .ok (t, c') → t.normal H = true) ∧
-    (∀ c ts c', xDecodeFields T R H fuel c = .ok (ts, c') → XItem.normalList H ts = true) := by
+theorem xDecode_normal {T : Tables} (hB : T.Bounded) {R : Rfc3339} : ∀ fuel : Nat,
+    (∀ H c tag t c', xDecodeValue T R H fuel c tag = .ok (t, c') → t.normal H = true) ∧
+    (∀ Hs c ts c', xDecodeFields T R Hs fuel c = .ok (ts, c') → XItem.normalList Hs ts = true) := by
   intro fuel
   induction fuel with
   | zero =>
     constructor
-    · intro c tag t c' h; simp [xDecodeValue] at h
-    · intro c ts c' h; simp [xDecodeFields] at h
+    · intro H c tag t c' h; simp [xDecodeValue] at h
+    · intro Hs c ts c' h; simp [xDecodeFields] at h
   | succ fuel ih =>
     constructor
-    · intro c tag t c' h
+    · intro H c tag t c' h
       rw [xDecodeValue] at h
       split at h
       · -- Integer / mask
@@ -1640,9 +1641,9 @@ theorem xDecode_normal {T : Tables} (hB : T.Bounded) {R : Rfc3339} {H : Hints} :
             simp only [Res.pure_eq, Res.ok.injEq, Prod.mk.injEq] at h
             obtain ⟨rfl, rfl⟩ := h
             simp only [XItem.normal]
-            exact ih.2 _ _ _ h2
+            exact ih.2 _ _ _ _ h2
       · cases h
-    · intro c ts c' h
+    · intro Hs c ts c' h
       rw [xDecodeFields] at h
       split at h
       · simp only [Res.ok.injEq, Prod.mk.injEq] at h
@@ -1653,7 +1654,7 @@ theorem xDecode_normal {T : Tables} (hB : T.Bounded) {R : Rfc3339} {H : Hints} :
         simp only [Res.pure_eq, Res.ok.injEq, Prod.mk.injEq] at h
         obtain ⟨rfl, rfl⟩ := h
         simp only [XItem.normalList, Bool.and_eq_true]
-        exact ⟨ih.1 _ _ _ _ h1, ih.2 _ _ _ h2⟩
+        exact ⟨ih.1 _ _ _ _ _ h1, ih.2 _ _ _ _ h2⟩
 
 theorem xmlReadToks_normal {T : Tables} (hB : T.Bounded) {R : Rfc3339} {H : Hints} {toks : List Tok}
     {t : XItem} (h : xmlReadToks T R H toks = .ok t) : t.normal H = true := by
@@ -1662,7 +1663,7 @@ theorem xmlReadToks_normal {T : Tables} (hB : T.Bounded) {R : Rfc3339} {H : Hint
   obtain ⟨⟨it, c'⟩, h1, h⟩ := bind_eq_ok h
   simp only [Res.pure_eq, Res.ok.injEq] at h
   subst h
-  exact (xDecode_normal hB _).1 _ _ _ _ h1
+  exact (xDecode_normal hB _).1 _ _ _ _ _ h1
 
 /-! ### JSON conversions return in-range values -/
 
@@ -1760,18 +1761,18 @@ theorem jscalar_inv {α : Type} {T : Tables} {c c' : JCur} {ty : Nat} {tag : Int
         exact ⟨_, h2.1 ▸ h1, Decidable.of_not_not htag⟩
 
 /-- whatever document the JSON reader accepts, the tree it returns is normalised. -/
-theorem jDecode_normal {T : Tables} (hB : T.Bounded) {R : Rfc3339} {H : Hints} : ∀ fuel : Nat,
-    (∀ c tag t c', jDecodeValue T R H fuel c tag = .ok (t, c') → t.normal H = true) ∧
-    (∀ c ts, jDecodeFields T R H fuel c = .ok ts → XItem.normalList H ts = true) := by
+theorem jDecode_normal {T : Tables} (hB : T.Bounded) {R : Rfc3339} : ∀ fuel : Nat,
+    (∀ H c tag t c', jDecodeValue T R H fuel c tag = .ok (t, c') → t.normal H = true) ∧
+    (∀ Hs c ts, jDecodeFields T R Hs fuel c = .ok ts → XItem.normalList Hs ts = true) := by
   intro fuel
   induction fuel with
   | zero =>
     constructor
-    · intro c tag t c' h; simp [jDecodeValue] at h
-    · intro c ts h; simp [jDecodeFields] at h
+    · intro H c tag t c' h; simp [jDecodeValue] at h
+    · intro Hs c ts h; simp [jDecodeFields] at h
   | succ fuel ih =>
     constructor
-    · intro c tag t c' h
+    · intro H c tag t c' h
       rw [jDecodeValue] at h
       split at h
       · split at h
@@ -1835,10 +1836,10 @@ theorem jDecode_normal {T : Tables} (hB : T.Bounded) {R : Rfc3339} {H : Hints} :
               simp only [Res.pure_eq, Res.ok.injEq, Prod.mk.injEq] at h
               obtain ⟨rfl, rfl⟩ := h
               simp only [XItem.normal]
-              exact ih.2 _ _ h2
+              exact ih.2 _ _ _ h2
             · cases h
       · cases h
-    · intro c ts h
+    · intro Hs c ts h
       rw [jDecodeFields] at h
       split at h
       · simp only [Res.ok.injEq] at h
@@ -1849,7 +1850,7 @@ theorem jDecode_normal {T : Tables} (hB : T.Bounded) {R : Rfc3339} {H : Hints} :
         simp only [Res.pure_eq, Res.ok.injEq] at h
         subst h
         simp only [XItem.normalList, Bool.and_eq_true]
-        exact ⟨ih.1 _ _ _ _ h1, ih.2 _ _ h2⟩
+        exact ⟨ih.1 _ _ _ _ _ h1, ih.2 _ _ _ h2⟩
 
 theorem jsonRead_normal {T : Tables} (hB : T.Bounded) {R : Rfc3339} {H : Hints} {j : JVal}
     {t : XItem} (h : jsonRead T R H j = .ok t) : t.normal H = true := by
@@ -1857,7 +1858,7 @@ theorem jsonRead_normal {T : Tables} (hB : T.Bounded) {R : Rfc3339} {H : Hints} 
   obtain ⟨⟨it, c'⟩, h1, h⟩ := bind_eq_ok h
   simp only [Res.pure_eq, Res.ok.injEq] at h
   subst h
-  exact (jDecode_normal hB _).1 _ _ _ _ h1
+  exact (jDecode_normal hB _).1 _ _ _ _ _ h1
 
 
 
@@ -1907,18 +1908,18 @@ theorem jDate_inYears {R : Rfc3339} (hR : R.Lawful) {j : Option JVal} {v : Int} 
   · cases h
 
 /-- the XML reader: tags and dates of what it returns. -/
-theorem xDecode_domain {T : Tables} (hB : T.Bounded) {R : Rfc3339} {H : Hints} : ∀ fuel : Nat,
-    (∀ c tag t c', xDecodeValue T R H fuel c tag = .ok (t, c') → t.inDomainG true R = true ∧ t.tag = tag) ∧
-    (∀ c ts c', xDecodeFields T R H fuel c = .ok (ts, c') → XItem.inDomainList R ts = true) := by
+theorem xDecode_domain {T : Tables} (hB : T.Bounded) {R : Rfc3339} : ∀ fuel : Nat,
+    (∀ H c tag t c', xDecodeValue T R H fuel c tag = .ok (t, c') → t.inDomainG true R = true ∧ t.tag = tag) ∧
+    (∀ Hs c ts c', xDecodeFields T R Hs fuel c = .ok (ts, c') → XItem.inDomainList R ts = true) := by
   intro fuel
   induction fuel with
   | zero =>
     constructor
-    · intro c tag t c' h; simp [xDecodeValue] at h
-    · intro c ts c' h; simp [xDecodeFields] at h
+    · intro H c tag t c' h; simp [xDecodeValue] at h
+    · intro Hs c ts c' h; simp [xDecodeFields] at h
   | succ fuel ih =>
     constructor
-    · intro c tag t c' h
+    · intro H c tag t c' h
       have hk : ∀ c : XCur, rootTagOk true (c.tag T) = true := fun c => by
         simpa [rootTagOk, XCur.tag] using tagOfText_ok hB c.rawTag
       rw [xDecodeValue] at h
@@ -1951,9 +1952,9 @@ theorem xDecode_domain {T : Tables} (hB : T.Bounded) {R : Rfc3339} {H : Hints} :
             simp only [Res.pure_eq, Res.ok.injEq, Prod.mk.injEq] at h
             obtain ⟨rfl, rfl⟩ := h
             subst htag'
-            exact ⟨by simp only [XItem.inDomainG, Bool.and_eq_true]; exact ⟨hk c, ih.2 _ _ _ h2⟩, rfl⟩
+            exact ⟨by simp only [XItem.inDomainG, Bool.and_eq_true]; exact ⟨hk c, ih.2 _ _ _ _ h2⟩, rfl⟩
       · cases h
-    · intro c ts c' h
+    · intro Hs c ts c' h
       rw [xDecodeFields] at h
       split at h
       · simp only [Res.ok.injEq, Prod.mk.injEq] at h
@@ -1964,23 +1965,23 @@ theorem xDecode_domain {T : Tables} (hB : T.Bounded) {R : Rfc3339} {H : Hints} :
         obtain ⟨⟨rest, c2⟩, h2, h⟩ := bind_eq_ok h
         simp only [Res.pure_eq, Res.ok.injEq, Prod.mk.injEq] at h
         obtain ⟨rfl, rfl⟩ := h
-        have ⟨hd, ht⟩ := ih.1 _ _ _ _ h1
+        have ⟨hd, ht⟩ := ih.1 _ _ _ _ _ h1
         simp only [XItem.inDomainList, Bool.and_eq_true]
-        exact ⟨inDomain_strict hd (by rw [ht]; exact hne), ih.2 _ _ _ h2⟩
+        exact ⟨inDomain_strict hd (by rw [ht]; exact hne), ih.2 _ _ _ _ h2⟩
 
 /-- the JSON reader: tags and dates of what it returns. -/
-theorem jDecode_domain {T : Tables} (hB : T.Bounded) {R : Rfc3339} (hR : R.Lawful) {H : Hints} : ∀ fuel : Nat,
-    (∀ c tag t c', jDecodeValue T R H fuel c tag = .ok (t, c') → t.inDomainG true R = true ∧ t.tag = tag) ∧
-    (∀ c ts, jDecodeFields T R H fuel c = .ok ts → XItem.inDomainList R ts = true) := by
+theorem jDecode_domain {T : Tables} (hB : T.Bounded) {R : Rfc3339} (hR : R.Lawful) : ∀ fuel : Nat,
+    (∀ H c tag t c', jDecodeValue T R H fuel c tag = .ok (t, c') → t.inDomainG true R = true ∧ t.tag = tag) ∧
+    (∀ Hs c ts, jDecodeFields T R Hs fuel c = .ok ts → XItem.inDomainList R ts = true) := by
   intro fuel
   induction fuel with
   | zero =>
     constructor
-    · intro c tag t c' h; simp [jDecodeValue] at h
-    · intro c ts h; simp [jDecodeFields] at h
+    · intro H c tag t c' h; simp [jDecodeValue] at h
+    · intro Hs c ts h; simp [jDecodeFields] at h
   | succ fuel ih =>
     constructor
-    · intro c tag t c' h
+    · intro H c tag t c' h
       have hk : ∀ c : JCur, rootTagOk true (c.tag T) = true := fun c => by
         have h0 : tagOk0 (0 : Int) = true := by decide
         unfold JCur.tag
@@ -2014,10 +2015,10 @@ theorem jDecode_domain {T : Tables} (hB : T.Bounded) {R : Rfc3339} (hR : R.Lawfu
               simp only [Res.pure_eq, Res.ok.injEq, Prod.mk.injEq] at h
               obtain ⟨rfl, rfl⟩ := h
               subst htag'
-              exact ⟨by simp only [XItem.inDomainG, Bool.and_eq_true]; exact ⟨hk c, ih.2 _ _ h2⟩, rfl⟩
+              exact ⟨by simp only [XItem.inDomainG, Bool.and_eq_true]; exact ⟨hk c, ih.2 _ _ _ h2⟩, rfl⟩
             · cases h
       · cases h
-    · intro c ts h
+    · intro Hs c ts h
       rw [jDecodeFields] at h
       split at h
       · simp only [Res.ok.injEq] at h
@@ -2028,9 +2029,9 @@ theorem jDecode_domain {T : Tables} (hB : T.Bounded) {R : Rfc3339} (hR : R.Lawfu
         obtain ⟨rest, h2, h⟩ := bind_eq_ok h
         simp only [Res.pure_eq, Res.ok.injEq] at h
         subst h
-        have ⟨hd, ht⟩ := ih.1 _ _ _ _ h1
+        have ⟨hd, ht⟩ := ih.1 _ _ _ _ _ h1
         simp only [XItem.inDomainList, Bool.and_eq_true]
-        exact ⟨inDomain_strict hd (by rw [ht]; exact hne), ih.2 _ _ h2⟩
+        exact ⟨inDomain_strict hd (by rw [ht]; exact hne), ih.2 _ _ _ h2⟩
 
 /-- whatever the XML reader accepts, it returns a tree of the (root) representable domain. -/
 theorem xmlReadToks_rep {T : Tables} (hB : T.Bounded) {R : Rfc3339} {H : Hints} {toks : List Tok}
@@ -2041,7 +2042,7 @@ theorem xmlReadToks_rep {T : Tables} (hB : T.Bounded) {R : Rfc3339} {H : Hints} 
   obtain ⟨⟨it, c'⟩, h1, h⟩ := bind_eq_ok h
   simp only [Res.pure_eq, Res.ok.injEq] at h
   subst h
-  exact rep_of_normal R H true _ hn ((xDecode_domain hB _).1 _ _ _ _ h1).1
+  exact rep_of_normal R true _ H hn ((xDecode_domain hB _).1 _ _ _ _ _ h1).1
 
 theorem jsonRead_rep {T : Tables} (hB : T.Bounded) {R : Rfc3339} (hR : R.Lawful) {H : Hints} {j : JVal}
     {t : XItem} (h : jsonRead T R H j = .ok t) : t.representableG true R H = true := by
@@ -2050,6 +2051,126 @@ theorem jsonRead_rep {T : Tables} (hB : T.Bounded) {R : Rfc3339} (hR : R.Lawful)
   obtain ⟨⟨it, c'⟩, h1, h⟩ := bind_eq_ok h
   simp only [Res.pure_eq, Res.ok.injEq] at h
   subst h
-  exact rep_of_normal R H true _ hn ((jDecode_domain hB hR _).1 _ _ _ _ h1).1
+  exact rep_of_normal R true _ H hn ((jDecode_domain hB hR _).1 _ _ _ _ _ h1).1
+
+/-! ## 13. every annotated tree is representable for SOME reader: the one told, position by position, what
+    the writer was told
+
+`Representable R H t` ties the annotations of `t` to the hints `H`.  For hints that look at the tag only
+(`Hints.ofTag`) this excludes every message in which two elements with one tag carry different
+enumeration / mask types — e.g. two `AttributeValue`s, a Cryptographic Algorithm and a Cryptographic Usage
+Mask.  With positional hints nothing is excluded: `t.hints` reads the annotations off the tree, and every
+tree whose values are in range, whose tags are KMIP tags and whose dates pass the year test is representable
+for it (`rep_hints`).  So the round-trip theorems cover EVERY such annotated tree, for the reader that makes
+at each position the choice the writer made there. -/
+
+mutual
+  /-- the hints a reader needs for `t`: at each position, the annotation the writer was given there. -/
+  def XItem.hints : XItem → Hints
+    | .struct _ cs => fun p tag =>
+      match p with
+      | [] => {}
+      | i :: q => XItem.hintsList cs i q tag
+    | .mask _ m _ => fun p _ =>
+      match p with
+      | [] => { mask := some m }
+      | _ :: _ => {}
+    | .enum _ e _ => fun p _ =>
+      match p with
+      | [] => { enumTag := e }
+      | _ :: _ => {}
+    | .int .. | .long .. | .big .. | .bool .. | .text .. | .bytes .. | .date .. | .interval .. => fun _ _ => {}
+  def XItem.hintsList : List XItem → Nat → Hints
+    | [], _ => noHints
+    | x :: xs, i =>
+      match i with
+      | 0 => x.hints
+      | k + 1 => XItem.hintsList xs k
+end
+
+mutual
+  /-- every value is in the range of its Go type (no condition on annotations). -/
+  def XItem.valuesOk : XItem → Bool
+    | .struct _ cs => XItem.valuesOkList cs
+    | .int _ v => int32Ok v
+    | .mask _ _ v => int32Ok v
+    | .long _ v => int64Ok v
+    | .enum _ _ v => decide (v < 4294967296)
+    | .interval _ v => decide (v < 4294967296)
+    | _ => true
+  def XItem.valuesOkList : List XItem → Bool
+    | [] => true
+    | x :: xs => x.valuesOk && XItem.valuesOkList xs
+end
+
+theorem hints_child (t : Int) (cs : List XItem) : (XItem.struct t cs).hints.child = XItem.hintsList cs := by
+  funext i q tag
+  simp [Hints.child, XItem.hints]
+
+theorem hintsList_zero (x : XItem) (xs : List XItem) : XItem.hintsList (x :: xs) 0 = x.hints := by
+  simp [XItem.hintsList]
+
+theorem hintsList_tail (x : XItem) (xs : List XItem) :
+    hintsTail (XItem.hintsList (x :: xs)) = XItem.hintsList xs := by
+  funext k
+  simp [hintsTail, XItem.hintsList]
+
+mutual
+  theorem normal_hints : ∀ t : XItem, t.valuesOk = true → t.normal t.hints = true
+    | .struct t cs, h => by
+      simp only [XItem.valuesOk] at h
+      simp only [XItem.normal, hints_child]
+      exact normalList_hints cs h
+    | .int t v, h => by simp only [XItem.valuesOk] at h; simp [XItem.normal, XItem.hints, h]
+    | .mask t m v, h => by simp only [XItem.valuesOk] at h; simp [XItem.normal, XItem.hints, h]
+    | .long t v, h => by simp only [XItem.valuesOk] at h; simp [XItem.normal, h]
+    | .big .., _ => by simp [XItem.normal]
+    | .enum t e v, h => by
+      simp only [XItem.valuesOk, decide_eq_true_eq] at h
+      simp [XItem.normal, XItem.hints, h]
+    | .bool .., _ => by simp [XItem.normal]
+    | .text .., _ => by simp [XItem.normal]
+    | .bytes .., _ => by simp [XItem.normal]
+    | .date .., _ => by simp [XItem.normal]
+    | .interval t v, h => by
+      simp only [XItem.valuesOk, decide_eq_true_eq] at h
+      simp [XItem.normal, h]
+  theorem normalList_hints : ∀ cs : List XItem, XItem.valuesOkList cs = true →
+      XItem.normalList (XItem.hintsList cs) cs = true
+    | [], _ => rfl
+    | c :: cs, h => by
+      simp only [XItem.valuesOkList, Bool.and_eq_true] at h
+      simp only [XItem.normalList, Bool.and_eq_true, hintsList_zero, hintsList_tail]
+      exact ⟨normal_hints c h.1, normalList_hints cs h.2⟩
+end
+
+/-- every tree with in-range values, KMIP tags and dates within the year test is representable for the
+    hints read off its own annotations. -/
+theorem rep_hints (R : Rfc3339) (top : Bool) (t : XItem) (hv : t.valuesOk = true)
+    (hd : t.inDomainG top R = true) : t.representableG top R t.hints = true :=
+  rep_of_normal R top t t.hints (normal_hints t hv) hd
+
+/-- conversely the value and domain conditions are all that `Representable` asks besides the hints. -/
+theorem valuesOk_of_normal : ∀ (t : XItem) (H : Hints), t.normal H = true → t.valuesOk = true := by
+  intro t
+  induction t using XItem.rec (motive_2 := fun cs => ∀ Hs : Nat → Hints, XItem.normalList Hs cs = true →
+      XItem.valuesOkList cs = true) with
+  | struct t cs ih => intro H h; simp only [XItem.normal] at h; simp only [XItem.valuesOk]; exact ih _ h
+  | int t v => intro H h; simp only [XItem.normal, Bool.and_eq_true] at h; simp [XItem.valuesOk, h.1]
+  | mask t m v => intro H h; simp only [XItem.normal, Bool.and_eq_true] at h; simp [XItem.valuesOk, h.1]
+  | long t v => intro H h; simp only [XItem.normal] at h; simp [XItem.valuesOk, h]
+  | big => intro H _; simp [XItem.valuesOk]
+  | enum t e v => intro H h; simp only [XItem.normal, Bool.and_eq_true] at h; simp only [XItem.valuesOk]; exact h.1
+  | bool => intro H _; simp [XItem.valuesOk]
+  | text => intro H _; simp [XItem.valuesOk]
+  | bytes => intro H _; simp [XItem.valuesOk]
+  | date => intro H _; simp [XItem.valuesOk]
+  | interval t v => intro H h; simp only [XItem.normal] at h; simp only [XItem.valuesOk]; exact h
+  | nil => rfl
+  | cons c cs ih1 ih2 =>
+    rename_i Hs h
+    simp only [XItem.normalList, Bool.and_eq_true] at h
+    simp only [XItem.valuesOkList, Bool.and_eq_true]
+    exact ⟨ih1 _ h.1, ih2 _ h.2⟩
 
 end Kmip.Lex
